@@ -283,138 +283,7 @@ func ruleC04(c *Ctx) {
 		R.Check(okC, key+"#paint.flat", pos, "the flat paint shows the register colour (flatImage.C = &flatColor)", shortKey(fic))
 	}
 
-	// initGradient: stop validation
-	if fn := c.Method("render", "Renderer", "initGradient", true); fn != nil {
-		pos := c.FPos(fn)
-		key := "render.(*Renderer).initGradient"
-		in, _, fr := r.run(fn, map[string]*sym.Term{"cReg": sym.Atom("cReg", nil), "nReg": sym.Atom("nReg", nil)}, "ValidAlphaPremulColor", "DecodeGradient", "Init")
-		R.Use("C04.6")
-		// the in-loop returns of false
-		var falseGuards []*sym.Term
-		var loopHeader = -1
-		// the stop loop lives in initGradient itself or in a helper it was moved into: use the frame that has it
-		for _, f := range append([]*sym.Frame{fr}, collectFrames(in.Events)...) {
-			if len(f.Headers()) == 1 {
-				fr = f
-				break
-			}
-		}
-		isFalse := func(t *sym.Term) bool {
-			if b, ok := t.BoolVal(); ok && !b {
-				return true
-			}
-			if t.Op == "tuple" {
-				for _, a := range t.Args {
-					if a != nil {
-						if b, ok := a.BoolVal(); ok && !b {
-							return true
-						}
-					}
-				}
-			}
-			return false
-		}
-		for _, ev := range in.Events {
-			if ev.Kind != "return" || ev.Frame != fr || len(ev.Args) == 0 || ev.Args[0] == nil {
-				continue
-			}
-			if isFalse(ev.Args[0]) {
-				falseGuards = append(falseGuards, ev.Guard)
-			}
-		}
-		if hs := fr.Headers(); len(hs) == 1 {
-			loopHeader = hs[0]
-		}
-		if loopHeader < 0 || len(falseGuards) == 0 {
-			R.Bad(key+"#validation", pos, "one stop loop that returns false on an invalid stop", fmt.Sprintf("%d loops, %d failing returns", len(fr.Headers()), len(falseGuards)))
-		} else {
-			li, ok := fr.Loop(loopHeader)
-			if !ok {
-				R.Unknown(key+"#validation", pos, "stop loop is not a counted loop")
-			} else {
-				i := li.IndexVal
-				nStops := li.Bound
-				R.Check(stripIntConv(nStops).Key() == "extract:4(call:DecodeGradient($param:rgba))", key+"#stops.count", pos, "loop over NSTOPS of the gradient colour", shortKey(nStops))
-				dg := func(k int) *sym.Term {
-					return sym.Extract(sym.Call("DecodeGradient", nil, sym.Atom("param:rgba", nil)), k, u8t)
-				}
-				mask := func(x *sym.Term) *sym.Term { return sym.Bin(tokAND, x, sym.Const(constant.MakeInt64(63), u8t), u8t) }
-				_ = mask
-				isRegRead := func(t *sym.Term, regs string, base *sym.Term) bool {
-					if t.Op != "index" || t.Args[0].Key() != regs {
-						return false
-					}
-					x, ok := mod64(t.Args[1])
-					if !ok {
-						return false
-					}
-					e := poly.NewEnv()
-					e.Rename[base.Key()] = "base"
-					e.Rename[i.Key()] = "i"
-					g, ok := e.One(x)
-					return ok && g.Equal(v("base").Add(v("i")))
-				}
-				// rebuild the expected failure condition from the actual atoms: find the three literals by shape
-				all := sym.Or(falseGuards...)
-				var lits []*sym.Term
-				seen := map[string]bool{}
-				var collect func(t *sym.Term)
-				collect = func(t *sym.Term) {
-					switch t.Op {
-					case "and", "or", "not":
-						for _, a := range t.Args {
-							collect(a)
-						}
-					default:
-						if !seen[t.Key()] {
-							seen[t.Key()] = true
-							lits = append(lits, t)
-						}
-					}
-				}
-				collect(all)
-				var P, ge0, le1, incr, loopc *sym.Term
-				for _, l := range lits {
-					switch {
-					case l.Op == "call" && l.Name == "ValidAlphaPremulColor":
-						P = l
-						R.Check(isRegRead(l.Args[0], "$cReg", dg(0)), key+"#stop.colour", pos, "the colour register (CBASE+i) mod 64", shortKey(l.Args[0]))
-					case l.Op == "bin" && (l.Name == "<=" || l.Name == "<"):
-						a, b := l.Args[0], l.Args[1]
-						isN := func(t *sym.Term) bool { return isRegRead(t, "$nReg", dg(1)) }
-						isConst := func(t *sym.Term, k int64) bool {
-							if !t.IsConst() || t.C == nil {
-								return false
-							}
-							return constant.Compare(constant.ToFloat(t.C), tokEQL, constant.ToFloat(constant.MakeInt64(k)))
-						}
-						switch {
-						case l.Name == "<=" && isConst(a, 0) && isN(b):
-							ge0 = l
-						case l.Name == "<=" && isN(a) && isConst(b, 1):
-							le1 = l
-						case l.Name == "<" && isN(b) && a.Op == "atom" && strings.HasPrefix(a.Name, "phi#"):
-							incr = l
-							// the loop-carried previous offset: starts at -Inf, becomes the offset
-							R.Check(prevOffsetPhi(fr, a, b), key+"#stop.previous", pos, "previous offset starts at -Inf and is updated to the stop's offset", shortKey(a))
-						case l.Name == "<" && sym.Eq(a, i) || sym.Eq(a, li.IndexVal):
-							loopc = l
-						}
-					}
-				}
-				if P == nil || ge0 == nil || le1 == nil || incr == nil {
-					R.Bad(key+"#validation", pos, "tests: premultiplied colour, 0 <= offset, offset <= 1, previous < offset", shortKey(all))
-				} else {
-					want := sym.Or(sym.Not(P), sym.Not(ge0), sym.Not(le1), sym.Not(incr))
-					if loopc != nil {
-						want = sym.And(loopc, want)
-					}
-					// strip reach atoms common to all
-					R.Check(equivalent(all, want), key+"#validation", pos, "returns false iff "+shortKey(want), shortKey(all))
-				}
-			}
-		}
-	}
+	checkInitGradientValidation(c, r, "C04.6")
 
 	// ---- C04.7 disabled => silent ----
 	R.Rule("C04.7", "a disabled path causes no rasteriser activity: with the disabled flag set, no drawing-mode method makes a state-changing rasteriser call", 21)
@@ -585,6 +454,148 @@ func ruleResolve(c *Ctx, ruleID string) {
 					}
 					want := poly.RatInt(255).Sub(v("t")).Mul(v(c0)).Add(v("t").Mul(v(c1))).Add(poly.RatInt(128))
 					R.Check(got.Equal(want), construct, pos, "((255-t)*c0 + t*c1 + 128)/255", got.String())
+				}
+			}
+		}
+	}
+
+}
+
+// checkInitGradientValidation: which gradients are painted at all. initGradient walks the NSTOPS stops the gradient
+// colour names and refuses exactly on a non-premultiplied stop colour, an offset outside [0,1] or a non-increasing
+// offset - nothing else (in particular no bound on the number of stops: all 58 that fit are drawn). Shared by
+// C04.6, C15.6 and C19.6.
+func checkInitGradientValidation(c *Ctx, r *rend, rule string) {
+	R := c.R
+	u8t := types.Typ[types.Uint8]
+	// initGradient: stop validation
+	if fn := c.Method("render", "Renderer", "initGradient", true); fn != nil {
+		pos := c.FPos(fn)
+		key := "render.(*Renderer).initGradient"
+		in, _, fr := r.run(fn, map[string]*sym.Term{"cReg": sym.Atom("cReg", nil), "nReg": sym.Atom("nReg", nil)}, "ValidAlphaPremulColor", "DecodeGradient", "Init")
+		R.Use(rule)
+		// the in-loop returns of false
+		var falseGuards []*sym.Term
+		var loopHeader = -1
+		// the stop loop lives in initGradient itself or in a helper it was moved into: use the frame that has it
+		for _, f := range append([]*sym.Frame{fr}, collectFrames(in.Events)...) {
+			if len(f.Headers()) == 1 {
+				fr = f
+				break
+			}
+		}
+		isFalse := func(t *sym.Term) bool {
+			if b, ok := t.BoolVal(); ok && !b {
+				return true
+			}
+			if t.Op == "tuple" {
+				for _, a := range t.Args {
+					if a != nil {
+						if b, ok := a.BoolVal(); ok && !b {
+							return true
+						}
+					}
+				}
+			}
+			return false
+		}
+		for _, ev := range in.Events {
+			if ev.Kind != "return" || ev.Frame != fr || len(ev.Args) == 0 || ev.Args[0] == nil {
+				continue
+			}
+			if isFalse(ev.Args[0]) {
+				falseGuards = append(falseGuards, ev.Guard)
+			}
+		}
+		if hs := fr.Headers(); len(hs) == 1 {
+			loopHeader = hs[0]
+		}
+		if loopHeader < 0 || len(falseGuards) == 0 {
+			R.Bad(key+"#validation", pos, "one stop loop that returns false on an invalid stop", fmt.Sprintf("%d loops, %d failing returns", len(fr.Headers()), len(falseGuards)))
+		} else {
+			li, ok := fr.Loop(loopHeader)
+			if !ok {
+				R.Unknown(key+"#validation", pos, "stop loop is not a counted loop")
+			} else {
+				i := li.IndexVal
+				nStops := li.Bound
+				R.Check(stripIntConv(nStops).Key() == "extract:4(call:DecodeGradient($param:rgba))", key+"#stops.count", pos, "loop over NSTOPS of the gradient colour", shortKey(nStops))
+				dg := func(k int) *sym.Term {
+					return sym.Extract(sym.Call("DecodeGradient", nil, sym.Atom("param:rgba", nil)), k, u8t)
+				}
+				mask := func(x *sym.Term) *sym.Term { return sym.Bin(tokAND, x, sym.Const(constant.MakeInt64(63), u8t), u8t) }
+				_ = mask
+				isRegRead := func(t *sym.Term, regs string, base *sym.Term) bool {
+					if t.Op != "index" || t.Args[0].Key() != regs {
+						return false
+					}
+					x, ok := mod64(t.Args[1])
+					if !ok {
+						return false
+					}
+					e := poly.NewEnv()
+					e.Rename[base.Key()] = "base"
+					e.Rename[i.Key()] = "i"
+					g, ok := e.One(x)
+					return ok && g.Equal(v("base").Add(v("i")))
+				}
+				// rebuild the expected failure condition from the actual atoms: find the three literals by shape
+				all := sym.Or(falseGuards...)
+				var lits []*sym.Term
+				seen := map[string]bool{}
+				var collect func(t *sym.Term)
+				collect = func(t *sym.Term) {
+					switch t.Op {
+					case "and", "or", "not":
+						for _, a := range t.Args {
+							collect(a)
+						}
+					default:
+						if !seen[t.Key()] {
+							seen[t.Key()] = true
+							lits = append(lits, t)
+						}
+					}
+				}
+				collect(all)
+				var P, ge0, le1, incr, loopc *sym.Term
+				for _, l := range lits {
+					switch {
+					case l.Op == "call" && l.Name == "ValidAlphaPremulColor":
+						P = l
+						R.Check(isRegRead(l.Args[0], "$cReg", dg(0)), key+"#stop.colour", pos, "the colour register (CBASE+i) mod 64", shortKey(l.Args[0]))
+					case l.Op == "bin" && (l.Name == "<=" || l.Name == "<"):
+						a, b := l.Args[0], l.Args[1]
+						isN := func(t *sym.Term) bool { return isRegRead(t, "$nReg", dg(1)) }
+						isConst := func(t *sym.Term, k int64) bool {
+							if !t.IsConst() || t.C == nil {
+								return false
+							}
+							return constant.Compare(constant.ToFloat(t.C), tokEQL, constant.ToFloat(constant.MakeInt64(k)))
+						}
+						switch {
+						case l.Name == "<=" && isConst(a, 0) && isN(b):
+							ge0 = l
+						case l.Name == "<=" && isN(a) && isConst(b, 1):
+							le1 = l
+						case l.Name == "<" && isN(b) && a.Op == "atom" && strings.HasPrefix(a.Name, "phi#"):
+							incr = l
+							// the loop-carried previous offset: starts at -Inf, becomes the offset
+							R.Check(prevOffsetPhi(fr, a, b), key+"#stop.previous", pos, "previous offset starts at -Inf and is updated to the stop's offset", shortKey(a))
+						case l.Name == "<" && sym.Eq(a, i) || sym.Eq(a, li.IndexVal):
+							loopc = l
+						}
+					}
+				}
+				if P == nil || ge0 == nil || le1 == nil || incr == nil {
+					R.Bad(key+"#validation", pos, "tests: premultiplied colour, 0 <= offset, offset <= 1, previous < offset", shortKey(all))
+				} else {
+					want := sym.Or(sym.Not(P), sym.Not(ge0), sym.Not(le1), sym.Not(incr))
+					if loopc != nil {
+						want = sym.And(loopc, want)
+					}
+					// strip reach atoms common to all
+					R.Check(equivalent(all, want), key+"#validation", pos, "returns false iff "+shortKey(want), shortKey(all))
 				}
 			}
 		}
